@@ -13,3 +13,6 @@ pub use crate::util::alloc::allocator::{
 
 /// `util::metadata::side_metadata::helpers` (module-private address arithmetic and bit searches).
 pub use crate::util::metadata::side_metadata::helpers::verif_hooks as side_helpers;
+
+/// `util::heap::space_descriptor` (crate-visible module, public type).
+pub use crate::util::heap::space_descriptor::SpaceDescriptor;
